@@ -49,9 +49,77 @@ def need_exp(probes, J, limit=40):
     return e
 
 
+def ldl_pivots(A):
+    """exact LDL^T pivots (Fractions) up to and including the first non-positive one; reads the lower triangle"""
+    n = len(A)
+    L = [[Fraction(0)] * n for _ in range(n)]
+    d = []
+    for i in range(n):
+        for j in range(i + 1):
+            s = A[i][j] - sum(L[i][k] * L[j][k] * d[k] for k in range(j))
+            if j < i:
+                L[i][j] = s / d[j]
+            else:
+                d.append(s)
+                if s <= 0:
+                    return d
+    return d
+
+
+def exact_need(Afrac, J, limit=14):
+    """least e with A + J*10^e*I positive definite (exact); None if A itself is; `limit` if none below it"""
+    n = len(Afrac)
+    if all(x > 0 for x in ldl_pivots(Afrac)):
+        return None
+    for e in range(limit):
+        t = J * SPEC_BASE**e
+        if all(x > 0 for x in ldl_pivots([[Afrac[i][j] + (t if i == j else 0) for j in range(n)] for i in range(n)])):
+            return e
+    return limit
+
+
+def build_coupled(rng, n, J, T, dtype):
+    """indefinite member without decoupled coordinates: A = L D L^T, L unit lower triangular with entries in {-1,0,1},
+    one negative pivot.  Accepted only if every pivot that decides an info code of any try is far from 0 in the dtype."""
+    tdt = DT[dtype]
+    eps = 1.2e-7 if dtype == "f32" else 2.3e-16
+    for _ in range(40):
+        L = [[Fraction(1 if i == j else (rng.choice([-1, 0, 1]) if j < i else 0)) for j in range(n)] for i in range(n)]
+        k = rng.randrange(n)
+        c = Fraction(rng.choice([2, 3, 5])) * J * Fraction(10) ** rng.choice([-1, 0, 1, 2])
+        D = [Fraction(rng.choice([1, 2, 3])) for _ in range(n)]
+        D[k] = -c
+        A = [[sum(L[i][m] * D[m] * L[j][m] for m in range(n)) for j in range(n)] for i in range(n)]
+        Af = [[torch.tensor(float(x), dtype=tdt).item() for x in r] for r in A]
+        Afr = [[Fraction(x) for x in r] for r in Af]
+        need = exact_need(Afr, J)
+        if need is None:
+            continue
+        amax = max(abs(x) for r in Af for x in r)
+        guard = 2000 * eps * amax
+        ok = True
+        last = min(need, max(T, 1) - 1) if need is not None else 0
+        for e in [None] + list(range(0, min(last, 13) + 1)):
+            t = Fraction(0) if e is None else J * SPEC_BASE**e
+            piv = ldl_pivots([[Afr[i][j] + (t if i == j else 0) for j in range(n)] for i in range(n)])
+            if any(abs(float(x)) < guard for x in piv):
+                ok = False
+        # the jitter must be measurable on the diagonal of the dtype
+        if float(J) < 50 * eps * amax:
+            ok = False
+        if ok:
+            return Af
+    return None
+
+
 def build_member(rng, kind, n, J, T, dtype):
     """-> (matrix as list of lists of python floats (exactly representable in dtype), probe indices, probe values)"""
     tdt = DT[dtype]
+    if kind == "cpl":
+        Af = build_coupled(rng, n, J, T, dtype)
+        if Af is not None:
+            return Af, [], []
+        kind = "ind1"   # fall back to a decoupled member (the spec works from the matrix, not from the kind)
     nprobe = 2 if kind == "two" else 1
     nb = n - nprobe
     # integer Cholesky factor of the coupled block
@@ -118,6 +186,7 @@ MIXES = {
     "psdc+pd": ["psdc", "pd"],
     "two+ind0": ["two", "ind0", "pd"],
     "neg": ["neg"],
+    "cpl+pd": ["cpl", "pd", "cpl"],       # coupled indefinite members (no decoupled coordinate)
 }
 
 
@@ -210,7 +279,11 @@ def spec_of(c):
             needs.append("nan")
             continue
         ps = [Fraction(float.fromhex(p)) for p in pr]
-        e = need_exp(ps, J)
+        if not ps:
+            Afr = [[Fraction(float.fromhex(x)) for x in r] for r in c["mats"][len(needs)]]
+            e = exact_need(Afr, J)
+        else:
+            e = need_exp(ps, J)
         if kind == "psdc":
             e = 0   # singular PSD block: any positive jitter makes it PD
         needs.append(e)
@@ -536,7 +609,7 @@ def compare_model(c, obs, mo):
                 diffs.append(f"member {b}: off-diagonal entries changed")
                 break
             # probe coordinates are the precise ones
-            i = c["pos"][b][0]
+            i = c["pos"][b][0] if c["pos"][b] else int(torch.diagonal(A0[b]).abs().argmin().item())
             got = d[i, i].item()
             if want == 0:
                 ok = torch.diagonal(d).abs().max().item() == 0
@@ -584,14 +657,14 @@ def gen_cfg(rng, mix, dtype, batch, via, forced=None):
     func = via == "func"
     jit_mode = forced.get("jit_mode") or rng.choice(["default", "settings", "explicit", "explicit+settings"] if func else ["default", "settings"])
     tries_mode = forced.get("tries_mode") or rng.choice(["default", "settings", "explicit", "explicit+settings"] if func else ["default", "settings"])
-    pool = JITS_BIG if mix == "psdc+pd" else JITS
-    if mix == "psdc+pd" and dtype == "f32" and jit_mode == "default":
+    pool = JITS_BIG if mix in ("psdc+pd", "cpl+pd") else JITS
+    if mix in ("psdc+pd", "cpl+pd") and dtype == "f32" and jit_mode == "default":
         jit_mode = "explicit" if func else "settings"
     jit = rng.choice(pool[dtype])
     tries = forced.get("tries", rng.choice([1, 2, 2, 3, 3, 4, 5]))
     if tries_mode == "default":
         tries = SPEC_MAX_TRIES
-    if mix in ("ind1+ind2+pd", "ind2+nan+psd0", "ind0+ind2", "two+ind0") and tries_mode != "default" and "tries" not in forced:
+    if mix in ("ind1+ind2+pd", "ind2+nan+psd0", "ind0+ind2", "two+ind0", "cpl+pd") and tries_mode != "default" and "tries" not in forced:
         tries = max(tries, rng.choice([2, 3, 4]))   # both outcomes (enough / not enough tries) occur; id carries the number
     nb = 1
     for b in batch:
@@ -613,7 +686,7 @@ def gen_cfg(rng, mix, dtype, batch, via, forced=None):
 def catalogue(rng, tier):
     cases = []
     batches = [(), (1,), (3,), (2, 2)] if tier == "quick" else [(), (1,), (2,), (3,), (5,), (2, 2), (3, 1), (2, 1, 2)]
-    reps = 1 if tier == "quick" else 5
+    reps = 2 if tier == "quick" else 12
     sizes = [2, 3, 4] if tier == "quick" else [2, 3, 4, 5, 6]
     for mix in MIXES:
         for dtype in ("f32", "f64"):
@@ -652,7 +725,7 @@ def catalogue(rng, tier):
             cfg = gen_cfg(rng, mix, dtype, (2,), "func", dict(trace=True, out=False))
             cases.append(make_case(rng, mix, dtype, (2,), cfg))
     # operator routes
-    opmixes = ["allpd", "pd+psd0", "pd+ind1+psd0", "ind1+ind2+pd", "psd0+neg+pd", "pd+nan", "last+pd", "over+psd0", "two+ind0"]
+    opmixes = ["allpd", "pd+psd0", "pd+ind1+psd0", "ind1+ind2+pd", "psd0+neg+pd", "pd+nan", "last+pd", "over+psd0", "two+ind0", "cpl+pd"]
     for via in ("dense_op", "to_linop", "sum_op", "blockdiag_op"):
         for dtype in ("f32", "f64"):
             for mix in (opmixes if tier == "thorough" or via in ("dense_op", "blockdiag_op") else opmixes[:5]):
@@ -708,8 +781,8 @@ def process(chk, cases):
         chk.count("layout:" + c["layout"])
         chk.count(f"jit:{c['jit_mode']}")
         chk.count(f"tries:{c['tries_mode']}")
-        for k in c["kinds"]:
-            chk.count("member:" + k)
+        for k, pos in zip(c["kinds"], c["pos"]):
+            chk.count("member:" + (k if (k != "cpl" or not pos) else "cpl->ind1(fallback)"))
         sp = spec_of(c)
         chk.count("spec-outcome:" + sp["err"])
         try:
